@@ -501,4 +501,117 @@ theorem query_ok {c : Cluster} {m : AMap} {b : Nat} (h : ClusterOK c m b) (keys 
     rw [this]
     exact (List.filter_sublist.map _).nodup hnd
 
+/-! #### the system and its specification -/
+
+theorem find?_filter_of_imp {α : Type} {l : List α} {p q : α → Bool} (h : ∀ x ∈ l, p x = true → q x = true) :
+    (l.filter q).find? p = l.find? p := by
+  induction l with
+  | nil => rfl
+  | cons a as ih =>
+    have ih' := ih (fun x hx => h x (by simp [hx]))
+    by_cases hq : q a = true
+    · simp only [List.filter_cons, hq, if_true, List.find?_cons, ih']
+    · have hp : p a = false := by
+        cases hpa : p a with
+        | false => rfl
+        | true => exact absurd (h a (by simp) hpa) hq
+      simp only [List.filter_cons, hq, Bool.false_eq_true, if_false, List.find?_cons, hp, ih']
+
+inductive Op where
+  | apply (k : String) (strat : Strategy) (tags : Tags) (now : Nat)
+  | delete (k : String)
+
+/-- the specification: a map from keys to values. -/
+def AMap.step (m : AMap) : Op → AMap
+  | .apply k s tags now => if tags.isEmpty then m else setKey m k (some (applyVal m k s tags now))
+  | .delete k => setKey m k none
+
+/-- the system: liaison Apply / Delete over a cluster in which every replica is reachable. -/
+def sysStep (c : Cluster) : Op → Cluster
+  | .apply k s tags now => (applyOp c allUp k s tags now).1
+  | .delete k => (deleteOp c allUp k).1
+
+/-- `modRevision_strict`, the clock hypothesis: the wall clock read by every Apply is strictly greater than
+    the one read by every earlier Apply (`b` = last reading). -/
+def ClockOK : Nat → List Op → Prop
+  | _, [] => True
+  | b, .apply _ _ _ now :: rest => b < now ∧ ClockOK now rest
+  | b, .delete _ :: rest => ClockOK b rest
+
+def clockEnd : Nat → List Op → Nat
+  | b, [] => b
+  | _, .apply _ _ _ now :: rest => clockEnd now rest
+  | b, .delete _ :: rest => clockEnd b rest
+
+def emptyCluster (n : Nat) : Cluster := { reps := List.replicate n [], clk := 1 }
+def emptyMap : AMap := fun _ => none
+
+theorem ShardOK.weaken {s : Shard} {m : AMap} {b b' : Nat} (h : ShardOK s m b) (hb : b ≤ b') : ShardOK s m b' :=
+  ⟨fun d hd => Nat.le_trans (h.bound d hd) hb, h.live, h.dead⟩
+
+theorem ClusterOK.weaken {c : Cluster} {m : AMap} {b b' : Nat} (h : ClusterOK c m b) (hb : b ≤ b') : ClusterOK c m b' :=
+  ⟨h.nonempty, fun s hs => (h.shards s hs).weaken hb, h.clk⟩
+
+theorem emptyCluster_ok {n : Nat} (hn : 0 < n) : ClusterOK (emptyCluster n) emptyMap 0 := by
+  refine ⟨?_, ?_, by simp [emptyCluster]⟩
+  · intro h
+    have := congrArg List.length h
+    simp [emptyCluster] at this; omega
+  · intro s hs
+    have : s = [] := by
+      simp only [emptyCluster] at hs
+      exact List.eq_of_mem_replicate hs
+    subst this
+    exact ⟨by simp, by simp [emptyMap], by simp⟩
+
+theorem run_ok (ops : List Op) : ∀ (c : Cluster) (m : AMap) (b : Nat), ClusterOK c m b → ClockOK b ops →
+    ClusterOK (ops.foldl sysStep c) (ops.foldl AMap.step m) (clockEnd b ops) := by
+  induction ops with
+  | nil => intro c m b h _; exact h
+  | cons op rest ih =>
+    intro c m b h hc
+    cases op with
+    | apply k s tags now =>
+      obtain ⟨hb, hrest⟩ := hc
+      simp only [List.foldl_cons, clockEnd]
+      apply ih _ _ now _ hrest
+      simp only [sysStep, AMap.step]
+      cases ht : tags.isEmpty with
+      | true => simp only [applyOp, ht, if_true]; exact h.weaken (Nat.le_of_lt hb)
+      | false => simp only [Bool.false_eq_true, if_false]; exact (applyOp_ok h k s tags now hb ht).1
+    | delete k =>
+      simp only [List.foldl_cons, clockEnd]
+      exact ih _ _ b (deleteOp_ok h k) hc
+
+/-- every value of the map carries a revision that some Apply read from the clock. -/
+theorem amap_bound (ops : List Op) : ∀ (m : AMap) (b : Nat), (∀ k v, m k = some v → v.rev ≤ b) → ClockOK b ops →
+    ∀ k v, (ops.foldl AMap.step m) k = some v → v.rev ≤ clockEnd b ops := by
+  induction ops with
+  | nil => intro m b h _; exact h
+  | cons op rest ih =>
+    intro m b h hc
+    cases op with
+    | apply k s tags now =>
+      obtain ⟨hb, hrest⟩ := hc
+      simp only [List.foldl_cons, clockEnd]
+      apply ih _ now _ hrest
+      intro k' v' hv'
+      simp only [AMap.step] at hv'
+      split at hv'
+      · have := h k' v' hv'; omega
+      · simp only [setKey] at hv'
+        split at hv'
+        · simp only [Option.some.injEq] at hv'; subst hv'
+          simp only [applyVal]; split <;> simp
+        · have := h k' v' hv'; omega
+    | delete k =>
+      simp only [List.foldl_cons, clockEnd]
+      apply ih _ b _ hc
+      intro k' v' hv'
+      simp only [AMap.step, setKey] at hv'
+      split at hv'
+      · cases hv'
+      · exact h k' v' hv'
+
+
 end Banyan.C18
